@@ -880,8 +880,26 @@ def _const_range(body, op):
     if r['k'] != 'agg' or 'Range' not in r['ak']:
         return None
     kind = r['ak'].split('::')[-1]
-    vals = [a.get('i') for a in r['a']]
+    vals = [_const_val(body, a) for a in r['a']]
     return (kind, vals)
+
+
+def _const_val(body, a):
+    """the integer an operand always holds: a literal, or arithmetic over literals / associated constants (`INDEX_SIZE * 2`)"""
+    if 'i' in a:
+        return a['i']
+    try:
+        import symterm
+        tb = getattr(body, '_tb0', None)
+        if tb is None:
+            tb = symterm.TermBuilder(body.facts, body, depth=0)
+            body._tb0 = tb
+        t = symterm.strip_casts(symterm.norm(tb.operand(a)))
+        if isinstance(t, tuple) and t[0] == 'k' and len(t) == 2 and isinstance(t[1], int):
+            return t[1]
+    except Exception:
+        pass
+    return None
 
 
 def panic_site_autodischarge(body, site):
